@@ -448,10 +448,10 @@ pub fn run(a: &Args) {
     // (C) every 4xx / 5xx status
     if want("status") {
         for status in 400..=599u16 {
-            if quick && status % 3 != 0 && !(400..=431).contains(&status) && !(500..=511).contains(&status) {
-                continue;
-            }
             for kind in ["blocking", "async"] {
+                if quick && kind == "async" && status % 2 == 1 && !(400..=431).contains(&status) && !(500..=511).contains(&status) {
+                    continue;
+                }
                 let id = next_rid();
                 let plan = mk_plan(id, ["length", "chunked", "close"][status as usize % 3], status, None, false, 0, status as usize, 10);
                 cx.exchange("HTTP error status", vec![(id, kind, targets4[status as usize % 4].clone(), cfgs[status as usize % 4].clone(), vec![], 2)], vec![plan], None, false);
